@@ -439,6 +439,27 @@ def c20_publication(src):
     return res
 
 
+def alloc_sites(src):
+    """C02/C15/C20: objects of the interned classes come into being in ONE place each, the `super().__new__(cls)` of their own `__new__`
+    (under the interning lock, right next to the registration).  `object.__new__(...)`, or a `__new__` call anywhere else, creates an
+    instance the intern table does not know, which no arithmetic can ever return."""
+    prog = Program(src)
+    bad = []
+    for m, q, n in _enclosing(prog):
+        if not isinstance(n, ast.Call):
+            continue
+        f = n.func
+        if isinstance(f, ast.Attribute) and f.attr == "__new__":
+            owner = ast.unparse(f.value)
+            inside_new = q.endswith(".__new__") and m.name == "measured"
+            if owner == "object" or not (inside_new and owner == "super()"):
+                if m.name in ("measured._parser",):
+                    continue
+                bad.append("%s:%s line %d: %s.__new__(...)" % (m.name, q, n.lineno, owner))
+    return {"intern/static:instances-are-allocated-only-in-their-interning-constructor": {
+        "status": "discharged" if not bad else "refuted", "ms": 0, "backend": "static-scan", "complete": True, "note": "; ".join(bad)}}
+
+
 def process_state(src):
     """no function of the library proper rebinds a module-level name (`global` / `nonlocal` caches) or changes
     process-wide interpreter state (the decimal context, recursion limit, locale, random seed, environment,
